@@ -1039,6 +1039,11 @@ func (fx *FnExec) evalCallC(x *ast.CallExpr, env *evalEnv) (cval, error) {
 		v := x.Args[0].(*ast.Ident).Name
 		sortLit, _ := strconv.Unquote(x.Args[1].(*ast.BasicLit).Value)
 		sort, gt := specSortOf(sortLit)
+		if gt == nil {
+			if nt := fx.W.typeByName(sortLit); nt != nil {
+				sort, gt = fx.sortOf(nt), nt
+			}
+		}
 		sub := *env
 		sub.bound = map[string]cval{}
 		for k, b := range env.bound {
@@ -1177,6 +1182,12 @@ func (fx *FnExec) evalCallC(x *ast.CallExpr, env *evalEnv) (cval, error) {
 		if err != nil {
 			return cval{}, err
 		}
+		if a.Sort == "nil" && b.Sort != "nil" {
+			a = cval{S: fx.nilOf(b.Sort), Sort: b.Sort, T: b.T}
+		}
+		if b.Sort == "nil" && a.Sort != "nil" {
+			b = cval{S: fx.nilOf(a.Sort), Sort: a.Sort, T: a.T}
+		}
 		return cval{S: ite(c.S, a.S, b.S), Sort: a.Sort, T: a.T}, nil
 	}
 	// spec function
@@ -1213,6 +1224,57 @@ func (fx *FnExec) evalCallC(x *ast.CallExpr, env *evalEnv) (cval, error) {
 		}
 		fx.declareFun(fn.Name, sorts, "Bool")
 		return boolr("(" + fn.Name + " " + strings.Join(args, " ") + ")")
+	}
+	for _, pf := range [][2]string{{"ufI_", "Iface"}, {"ufS_", "Slice"}, {"ufs_", "Str"}, {"ufV_", "S_reflect_Value"}} {
+		if strings.HasPrefix(fn.Name, pf[0]) {
+			// uninterpreted function with the result sort named by the prefix, declared on first use
+			var args, sorts []string
+			for _, a := range x.Args {
+				v, err := fx.evalC(a, env)
+				if err != nil {
+					return cval{}, err
+				}
+				if v.S == "" && v.P != nil {
+					v.S = fx.materialise(Val{P: v.P, T: v.T})
+				}
+				args = append(args, v.S)
+				sorts = append(sorts, v.Sort)
+			}
+			fx.declareFun(fn.Name, sorts, pf[1])
+			rv := cval{S: "(" + fn.Name + " " + strings.Join(args, " ") + ")", Sort: pf[1]}
+			switch pf[1] {
+			case "Iface":
+				rv.T = types.NewInterfaceType(nil, nil)
+			case "Slice":
+				rv.T = types.NewSlice(types.Typ[types.Int])
+			case "Str":
+				rv.T = types.Typ[types.String]
+			case "S_reflect_Value":
+				rv.T = fx.W.typeByName("reflect.Value")
+			}
+			return rv, nil
+		}
+	}
+	if strings.HasPrefix(fn.Name, "mk_") {
+		// struct value constructor: mk_<StructName>(field values in order)
+		t := fx.W.typeByName(fn.Name[3:])
+		if t == nil {
+			return cval{}, fmt.Errorf("%s: unknown struct type", fn.Name)
+		}
+		st, ok := t.Underlying().(*types.Struct)
+		if !ok || st.NumFields() != len(x.Args) {
+			return cval{}, fmt.Errorf("%s: expects %d field values", fn.Name, st.NumFields())
+		}
+		si := fx.W.structInfoOf(t)
+		parts := []string{"(mk-" + si.sort}
+		for _, a := range x.Args {
+			v, err := fx.evalC(a, env)
+			if err != nil {
+				return cval{}, err
+			}
+			parts = append(parts, v.S)
+		}
+		return cval{S: strings.Join(parts, " ") + ")", Sort: si.sort, T: t}, nil
 	}
 	if strings.HasPrefix(fn.Name, "ufi_") {
 		// uninterpreted integer-valued function declared on first use
